@@ -10,6 +10,13 @@ for d in sorted(glob.glob('/verif/seeded/agent-%s-*' % pid)):
         m=json.load(open(d+'/meta.json'))
         olds.append('  - '+(m.get('needs') or m.get('description') or '')[:260].replace('\n',' '))
     except Exception: pass
+for nf in sorted(glob.glob('/root/mut-out/%sr*/m*/notes.txt' % pid)):
+    rd = nf.split('/')[3]
+    if tag and rd.endswith(tag):
+        continue
+    if os.path.isdir('/verif/seeded/agent-%s-%sm%s' % (pid, rd[len(pid):], nf.split('/')[4][1:])):
+        continue
+    olds.append('  - ' + open(nf).read()[:260].replace('\n', ' '))
 if olds and tag:
     prev='ALREADY explored in earlier rounds (do NOT repeat these ideas or close variants; find different mechanisms, different functions, different input classes):\n'+'\n'.join(olds)+'\n\n'
 print(f"""You are helping test a verification effort for the open-source project theandrew168/bronzebeard (a pure-Python RISC-V assembler, bronzebeard/asm.py, plus a DFU flasher, bronzebeard/dfu.py).
